@@ -46,10 +46,8 @@ theorem remove_principal_eq (l : Language) :
   | none => simp [Ling.Language.remove_principal_territory_code, removePrincipalTerritory, noneOrTrue]
   | some c =>
     simp only [Ling.Language.remove_principal_territory_code, get_principal_eq, removePrincipalTerritory]
-    by_cases h : principalTerritory ll = some c
-    · simp [h, noneOrTrue]
-    · have h' : ¬ (some c = principalTerritory ll) := fun e => h e.symm
-      simp [h, h', noneOrTrue]
+    have e1 : (some c = principalTerritory ll) = (principalTerritory ll = some c) := propext eq_comm
+    by_cases h : principalTerritory ll = some c <;> simp [h, e1, noneOrTrue]
 
 theorem remove_principal_encUpper (l : Language) (h : EncUpper l) : EncUpper (removePrincipalTerritory l) := by
   unfold removePrincipalTerritory
@@ -85,15 +83,18 @@ theorem fix_codes_eq (l : Language) :
   | none => rfl
   | some ll' =>
     simp only []
+    -- both orientations of every comparison, so that `a != b` may also be written `b != a` in the source
+    have e1 : (ll = ll') = (ll' = ll) := propext eq_comm
     cases cc with
     | none =>
-      by_cases h : ll' = ll <;> simp [h, Except.map, noneOrTrue]
+      by_cases h : ll' = ll <;> simp [h, e1, Except.map, noneOrTrue]
     | some c =>
       simp only []
       cases hc : lookupTerritory c with
-      | none => by_cases h : ll' = ll <;> simp [h, Except.map]
+      | none => by_cases h : ll' = ll <;> simp [h, e1, Except.map]
       | some c' =>
-        by_cases h : ll' = ll <;> by_cases h2 : c' = c <;> simp [h, h2, Except.map, noneOrTrue]
+        have e2 : (c = c') = (c' = c) := propext eq_comm
+        by_cases h : ll' = ll <;> by_cases h2 : c' = c <;> simp [h, h2, e1, e2, Except.map, noneOrTrue]
 
 theorem fix_codes_encUpper (l l' : Language) (f : Bool) (h : EncUpper l) (hf : fixCodes l = .ok (l', f)) : EncUpper l' := by
   have : l'.enc = l.enc := by
@@ -126,7 +127,8 @@ theorem remove_nonlinguistic_modifier_eq (l : Language) :
       .ok (noneOrTrue (removeNonlinguisticModifier l).2, (removeNonlinguisticModifier l).1) := by
   simp only [Ling.Language.remove_nonlinguistic_modifier, removeNonlinguisticModifier]
   generalize "euro".toList = e
-  by_cases h : l.mod = some e <;> simp [h, noneOrTrue]
+  have e1 : (some e = l.mod) = (l.mod = some e) := propext eq_comm
+  by_cases h : l.mod = some e <;> simp [h, e1, noneOrTrue]
 
 theorem str_eq (l : Language) : Ling.Language.__str__ l = .ok l.str := by
   obtain ⟨ll, cc, enc, mod⟩ := l
